@@ -195,3 +195,44 @@ fn lib_b2f() {
     });
     report(r);
 }
+
+#[test]
+fn lib_hash() {
+    use crate::crypto::hash::HashWrapperReader;
+    use sha2::{Digest, Sha256};
+    struct One<'a>(&'a [u8], usize);
+    impl Read for One<'_> {
+        fn read(&mut self, buf: &mut [u8]) -> std::io::Result<usize> {
+            if self.1 >= self.0.len() || buf.is_empty() {
+                return Ok(0);
+            }
+            buf[0] = self.0[self.1];
+            self.1 += 1;
+            Ok(1)
+        }
+    }
+    let r = catch_unwind(|| -> Option<String> {
+        let data: Vec<u8> = (0..100u8).collect();
+        let mut h = Sha256::default();
+        {
+            let mut w = HashWrapperReader::new(One(&data, 0), &mut h);
+            let mut buf = [0u8; 64];
+            let mut out = Vec::new();
+            loop {
+                match w.read(&mut buf) {
+                    Ok(0) => break,
+                    Ok(n) => out.extend_from_slice(&buf[..n]),
+                    Err(_) => return Some("read failed".to_string()),
+                }
+            }
+            if out != data {
+                return Some("bytes altered by the hashing reader".to_string());
+            }
+        }
+        if h.finalize().as_slice() != Sha256::digest(&data).as_slice() {
+            return Some("hash accumulated while copying through a 1-byte source differs from SHA-256 of the bytes returned".to_string());
+        }
+        None
+    });
+    report(r);
+}
